@@ -218,7 +218,20 @@ func (sp *SAMLServiceProvider) decryptAssertions(el *etree.Element) error {
 }
 
 func (sp *SAMLServiceProvider) validateElementSignature(el *etree.Element) (*etree.Element, error) {
-	return sp.validationContext().Validate(el)
+	verified, err := sp.validationContext().Validate(el)
+	if err == dsig.ErrMissingSignature {
+		// ErrMissingSignature only means that no signature references el. An element that
+		// envelops a ds:Signature which does not reference it (edited or shadowed ID
+		// attribute) carries a bad signature, not a missing one: it must not be treated as unsigned.
+		sig, findErr := etreeutils.NSFindOneChild(el, dsig.Namespace, dsig.SignatureTag)
+		if findErr != nil {
+			return nil, findErr
+		}
+		if sig != nil {
+			return nil, dsig.ErrInvalidSignature
+		}
+	}
+	return verified, err
 }
 
 // deprecated
